@@ -20,7 +20,8 @@ func init() {
 			"(P) response maps handed to the serialiser goroutine are not aliased with maps the handler keeps mutating; (C) no channel with concurrent senders is closed, no unguarded blocking send in shim endpoints. " +
 			"Not decided: panics inside dependencies, resource exhaustion, latency of neighbours. " +
 			"(N, second part) elements of pointer collections filled by encoding/json are nil-tested before use; (C, second part) a channel is only closed by its sole sending goroutine (or after WaitGroup.Wait). " +
-			"(I) an offset found by searching one string/slice only slices that same value, and possibly-nil pointers are tested before use; (Q) per-request functions never return (nil, nil); (R) the fetch helper's error belongs to the response it returns; (O) the dedup LRU is confined to the poller; (E, second part) one worker goroutine is started per fetched request without waiting for earlier ones.",
+			"(I) an offset found by searching one string/slice only slices that same value, and possibly-nil pointers are tested before use; (Q) per-request functions never return (nil, nil); (R) the fetch helper's error belongs to the response it returns; (O) the dedup LRU is confined to the poller; (E, second part) one worker goroutine is started per fetched request without waiting for earlier ones." +
+			" (Q, second part) no function, new helpers included, returns a nil result together with an error variable that was tested nil on a path reaching that return; (C, third part) shim sessions are forgotten only by close and failed polls (shared with C12.U); (G, second part) only the reasoned fields of the reverse proxy are set (a custom ErrorLog/ErrorHandler can block or skip the 502).",
 		Assumptions: []string{
 			"VTA call graph is sound for this module (no reflect/unsafe dispatch)",
 			"dependencies do not call os.Exit/log.Fatal on per-request paths (only module source is scanned for exit calls)",
